@@ -172,6 +172,15 @@ type world struct {
 	// re-synchronised); counts, density, UID order and range rules stay hard.
 	lenientPositions bool
 
+	// noRefile: do not generate operations that re-file a message inside one mailbox (COPY/MOVE
+	// onto the selected mailbox, remote re-label of a mailbox the message was in before);
+	// refiles counts the ones that were generated.
+	noRefile bool
+	refiles  int
+	everIn   map[string]map[imap.MailboxID]bool
+
+	uidHistory map[string]map[string]map[uint32]bool // box -> marker -> UIDs it has had there
+
 	// onResp is called for every untagged response of every command (trace monitors).
 	onResp func(s *vsess, cmdKind string, resp *imapc.Resp)
 }
@@ -821,8 +830,12 @@ func (w *world) stepClient(s *vsess, rng *rand.Rand, allowIdle bool) string {
 		pos := pickPositions(rng, n)
 		dst := other()
 
-		if rng.Intn(6) == 0 {
+		if rng.Intn(6) == 0 && !w.noRefile {
 			dst = s.box
+
+			w.mu.Lock()
+			w.refiles++
+			w.mu.Unlock()
 		}
 
 		w.exec(s, fmt.Sprintf("MOVE %s %s", seqSetOf(pos), imapc.Quote(dst)))
@@ -932,7 +945,7 @@ func (w *world) stepConnector(rng *rand.Rand) string {
 		for i := 0; i < 1+rng.Intn(2); i++ {
 			mk := w.marker()
 
-			mc, err := u.Conn.RemoteAddMessage(simpleMessage(mk, rng), imap.NewFlagSet(pickViewFlags(rng, true)...), time.Unix(1136214245, 0).UTC(), pickBox())
+			mc, err := u.Conn.RemoteAddMessage(simpleMessage(mk, rng), imap.NewFlagSet(withoutFlag(pickViewFlags(rng, true), `\deleted`)...), time.Unix(1136214245, 0).UTC(), pickBox())
 			if err != nil {
 				return ""
 			}
@@ -981,6 +994,45 @@ func (w *world) stepConnector(rng *rand.Rand) string {
 		}
 
 		target = dedupMailboxIDs(target)
+
+		// Re-adding a message to a mailbox it was in before re-files it there (new UID).
+		w.mu.Lock()
+		if w.everIn == nil {
+			w.everIn = map[string]map[imap.MailboxID]bool{}
+		}
+
+		if w.everIn[mk] == nil {
+			w.everIn[mk] = map[imap.MailboxID]bool{}
+		}
+
+		now := map[imap.MailboxID]bool{}
+		for _, id := range mi.Mailboxes {
+			now[id] = true
+			w.everIn[mk][id] = true
+		}
+
+		refile := false
+
+		for _, id := range target {
+			if !now[id] && w.everIn[mk][id] {
+				refile = true
+			}
+		}
+
+		if refile && w.noRefile {
+			w.mu.Unlock()
+			return ""
+		}
+
+		if refile {
+			w.refiles++
+		}
+
+		for _, id := range target {
+			w.everIn[mk][id] = true
+		}
+		w.mu.Unlock()
+
 		u.Conn.RemoteSetMailboxes(mi.ID, target)
 
 		return apply("MessageMailboxesUpdated", imap.NewMessageMailboxesUpdated(mi.ID, target, mi.Flags))
@@ -1013,6 +1065,44 @@ func dedupMailboxIDs(in []imap.MailboxID) []imap.MailboxID {
 			seen[id] = true
 			out = append(out, id)
 		}
+	}
+
+	return out
+}
+
+// noteUIDs records which UID each message (marker) has in a mailbox right now.
+func (w *world) noteUIDs(box string, v *BoxView) {
+	w.mu.Lock()
+	defer w.mu.Unlock()
+
+	if w.uidHistory == nil {
+		w.uidHistory = map[string]map[string]map[uint32]bool{}
+	}
+
+	if w.uidHistory[box] == nil {
+		w.uidHistory[box] = map[string]map[uint32]bool{}
+	}
+
+	for _, m := range v.Msgs {
+		if m.Marker == "" {
+			continue
+		}
+
+		if w.uidHistory[box][m.Marker] == nil {
+			w.uidHistory[box][m.Marker] = map[uint32]bool{}
+		}
+
+		w.uidHistory[box][m.Marker][m.UID] = true
+	}
+}
+
+func (w *world) uidsOfMarker(box, marker string) []uint32 {
+	w.mu.Lock()
+	defer w.mu.Unlock()
+
+	var out []uint32
+	for u := range w.uidHistory[box][marker] {
+		out = append(out, u)
 	}
 
 	return out
